@@ -394,10 +394,14 @@ pub fn run(tier: Tier) -> Report {
   rep.add(engine_static_sub(tier));
   rep.add(engine_live_sub(tier));
   rep.add(session_sub(tier));
+  rep.add(crate::c04_real::fin_sub(tier));
   rep
 }
 
 pub fn replay(sub: &str, w: &Value) -> Result<String, String> {
+  if w["explorer"] == "e4" {
+    return crate::c04_real::replay(w);
+  }
   if sub == "session-actor" {
     let name = w["transcript"].as_str().unwrap_or("");
     let t = transcripts().into_iter().find(|t| t.name == name).ok_or("unknown transcript")?;
